@@ -60,7 +60,7 @@ FormOK(o, k) ==
       u == Resolve(RootUrl(o), r)
   IN  IF o.opts.abs
       THEN IsAbsoluteUrl(r) /\ ~HasDots(r)
-      ELSE IF SameDoc(u, RootUrl(o)) THEN IsFragOnly(r)
+      ELSE IF SameDocLocal(u, RootUrl(o)) THEN IsFragOnly(r)
       ELSE IF UnderDirOf(RootUrl(o), u) THEN IsRelPath(r)
       ELSE TRUE
 BadForm(o) == {k \in KeptRefs(o) : ~FormOK(o, k)}
@@ -69,7 +69,7 @@ BadForm(o) == {k \in KeptRefs(o) : ~FormOK(o, k)}
 FormOKRel(o, k) ==
   LET r == o.nodes[k].ref
       u == Resolve(RootUrl(o), r)
-  IN  IF SameDoc(u, RootUrl(o)) THEN IsFragOnly(r)
+  IN  IF SameDocLocal(u, RootUrl(o)) THEN IsFragOnly(r)
       ELSE IF UnderDirOf(RootUrl(o), u) THEN IsRelPath(r)
       ELSE TRUE
 
